@@ -32,7 +32,7 @@ TOL = 2e-6
 
 
 def BOUNDS(tier):
-    return {"dofs_per_configuration": "<= ~140", "amplitudes": [0.0, 0.05, 0.15], "pJ": [[0.0, 1.0], [0.3, 1.1], [-0.3, 0.9]], "contact_points": 3}
+    return {"dofs_per_configuration": "<= ~140", "amplitudes": [0.0, 0.05, 0.15], "pJ": [[0.0, 1.0], [0.3, 1.1], [-0.3, 0.9]], "contact_points": 3, "materials": MATERIALS}
 
 
 SOLID_FIELDS = [
